@@ -78,6 +78,56 @@ impl DocBox {
         b.root_addr = root_addr;
         arc
     }
+    /// The caller's own in-place update of a `Value` document into `new` (members removed and added,
+    /// strings rewritten in their buffers, elements assigned): the root and every node that stays keep
+    /// their addresses. Returns false (nothing done) for the stubbed store.
+    pub fn edit_in_place(&mut self, new: &Value, content: usize) -> bool {
+        fn assign(old: &mut Value, new: &Value) {
+            match (old, new) {
+                (Value::Object(o), Value::Object(n)) => {
+                    o.retain(|k, _| n.contains_key(k));
+                    for (k, v) in n {
+                        match o.get_mut(k) {
+                            Some(x) => assign(x, v),
+                            None => {
+                                o.insert(k.clone(), v.clone());
+                            }
+                        }
+                    }
+                }
+                (Value::Array(o), Value::Array(n)) => {
+                    o.truncate(n.len());
+                    let keep = o.len();
+                    for i in 0..keep {
+                        assign(&mut o[i], &n[i]);
+                    }
+                    for x in &n[keep..] {
+                        o.push(x.clone());
+                    }
+                }
+                (Value::String(o), Value::String(n)) => {
+                    if o != n {
+                        o.clear();
+                        o.push_str(n);
+                    }
+                }
+                (o, n) => {
+                    if o != n {
+                        *o = n.clone();
+                    }
+                }
+            }
+        }
+        let DocInner::V(v) = &mut self.inner else { return false };
+        assign(v, new);
+        assert!(*v == *new, "harness: in-place edit did not arrive at the planned content");
+        let mut locs = LocMap::new();
+        locs_value(v, &mut vec![], &mut locs);
+        self.root_addr = v as *const Value as usize;
+        self.locs = locs;
+        self.content = content;
+        true
+    }
     pub fn to_json(&self) -> String {
         match &self.inner {
             DocInner::V(v) => v.to_string(),
@@ -104,7 +154,7 @@ fn loc_of<T>(locs: &LocMap, r: &T) -> String {
     locs.get(&(r as *const T as usize)).cloned().unwrap_or_else(|| "FOREIGN".to_string())
 }
 
-fn fmt_w<T: Subject>(locs: &LocMap, res: Vec<QueryRef<T>>) -> String {
+pub fn fmt_w<T: Subject>(locs: &LocMap, res: Vec<QueryRef<T>>) -> String {
     let mut s = String::from("Ok[");
     for (i, r) in res.into_iter().enumerate() {
         if i > 0 {
